@@ -351,7 +351,9 @@ def dump_one(f: TextIO, data: IOData):
         if shell.ncon != 1:
             raise RuntimeError("Generalized contractions not supported. Call prepare_dump first.")
         iatom_new = shell.icenter
-        if iatom_new != iatom_last:
+        # The reader counts the separators: one for every atom that is passed,
+        # also when an atom carries no basis functions.
+        for _ in range(iatom_new - iatom_last):
             f.write("$$\n")
         angmom = shell.angmoms[0]
         kind = shell.kinds[0]
